@@ -7,11 +7,11 @@ ALL = [f"C{i:02d}" for i in range(1, 21)]
 
 # id -> (technique, level text, level_note, design_ref)
 CLAIMED = {
-    "C03": ("Coq proof (bit-string slice = shift/mask model, all buffers/offsets/widths) + translator: packets._extract_bits regenerated into Gallina from the current source and proved equal to the model on every run + kernel-evaluated correspondence with _extract_bits/read_as_int/read_as_bytes",
+    "C03": ("Coq proof (bit-string slice = shift/mask model, all buffers/offsets/widths) + translator: packets._extract_bits, RawPacketData.read_as_int / read_as_bytes and the header accessors regenerated into Gallina from the current source and proved equal to the model (every buffer, cursor >= 0, width; exceptions included) on every run + kernel-evaluated correspondence with _extract_bits/read_as_int/read_as_bytes",
             "Theorems C03_read_int/C03_read_bytes/... prove, for every well-formed buffer and every in-range (p, n), that the Gallina "
             "transcription of the cursor reads returns the value of bits p..p+n-1 of the buffer's bit string, right-aligned bytes, cursor p+n, "
             "buffer unchanged. The model is tied to /repo on every run by evaluating it in Coq's VM on the same inputs as the implementation.",
-            "Trusted: Coq kernel+VM, the hand model's fidelity as sampled by the correspondence (exhaustive small buffers, every p mod 8 x n mod 8) and, for _extract_bits, the translator harness/gen_fun.py with the Python operation semantics of Base/PyEval.v; CPython int/bytes primitives.",
+            "Trusted: Coq kernel+VM, the hand model's fidelity as sampled by the correspondence (exhaustive small buffers, every p mod 8 x n mod 8) and, for _extract_bits / read_as_int / read_as_bytes / the header accessors, the translator harness/gen_fun.py with the Python operation semantics of Base/PyEval.v; CPython int/bytes primitives.",
             "DESIGN.md section 4 C03, 8.1"),
     "C02": ("Coq proof by induction over the packet list (loop invariant: unread buffer ++ pending reads = encoding of the remaining packets; any chunking, prefix k, trim threshold T, known/unknown total) + kernel-evaluated correspondence with ccsds_generator on bytes/file/socket sources, also with the buffer-trim literal of its code object replaced by small numbers (same number given to the model) + real >20 MB stream judged against the spec",
             "Theorems C02_bytes_source / C02_file_socket_source / C02_loop_exact / C02_trim_and_chunking_irrelevant: for every list of CCSDS packets each preceded by k foreign bytes and every cutting of the stream into non-empty read results, the framer model yields exactly the packets, for all three source kinds, all T. Model tied to packets.ccsds_generator each run.",
@@ -41,7 +41,7 @@ CLAIMED = {
             "Twelve theorems (Props/C06.v) for all environments, literals, operators and trees of any depth. Literal text parsing (int()/float()) is glue done by the harness; consumers (inheritance, calibrator choice) are exercised under C05/C08.",
             "Trusted: Coq kernel+VM; Python's int()/float() literal parsing; correspondence sampling. Genuine defects F3, F4, F16 found by this check and repaired by fix: commits.",
             "DESIGN.md section 4 C06"),
-    "C04": ("Coq proof (unsigned/two's-complement/byte-reversed integer value of the bit slice, cursor, class; float glue at every offset and order; all 65536 binary16 patterns by kernel computation against Flocq's binary16 decoder; the exact real value of every finite binary16/32/64 pattern as the standard defines it from the bit fields, infinities/NaN, and faithfulness of the 64-bit carrier) + translator: _twos_complement regenerated into Gallina from the current source and proved equal to the model on every run + kernel-evaluated correspondence with IntegerDataEncoding/FloatDataEncoding.parse_value, bit-exact against struct",
+    "C04": ("Coq proof (unsigned/two's-complement/byte-reversed integer value of the bit slice, cursor, class; float glue at every offset and order; all 65536 binary16 patterns by kernel computation against Flocq's binary16 decoder; the exact real value of every finite binary16/32/64 pattern as the standard defines it from the bit fields, infinities/NaN, and faithfulness of the 64-bit carrier) + translator: _twos_complement and IntegerDataEncoding._get_raw_value (read, byte reversal, sign; on top of the translated cursor methods) regenerated into Gallina from the current source and proved equal to the model on every run + kernel-evaluated correspondence with IntegerDataEncoding/FloatDataEncoding.parse_value, bit-exact against struct",
             "Theorems C04_uint, C04_sint, C04_signed_range, C04_lsb_uint, C04_lsb_sint, C04_float_glue, C04_half_exhaustive (bound 2^16 stated), C04_ieee_value, C04_ieee_special, C04_carrier_faithful. partial: that struct.unpack implements the IEEE meaning, and the MIL-1750A pattern, are tied by the bit-exact correspondence (class boundaries, NaNs, subnormals, random).",
             "Trusted: Coq kernel+VM; Flocq 4.1 (its definitions depend on the standard library's real-number axioms, listed by Print Assumptions); struct.unpack.",
             "DESIGN.md section 4 C04"),
@@ -82,11 +82,11 @@ CLAIMED = {
             "Trusted: Coq kernel+VM; lxml; the modelling decision that readers touch documents only through find/iterfind/attrib/text (checked by decorated-document correspondence). Genuine defect F9 found by this check and repaired by a fix: commit.",
             "DESIGN.md section 4 C16"),
     "C09": ("Coq proof of the write/read round trip at every level up to the whole document (read_doc (write_doc d) = d for every writer-normal-form document: containers, parameters, parameter types, numeric/string/binary encodings, dynamic sizes and lookups, criteria and boolean trees of any depth, calibrators and context calibrators) + full reader/writer/loader model + kernel-evaluated correspondence: implementation writer tree = model writer tree element by element, and the definition loaded back = the original (independent dumper incl. adjusters, identity), for definitions built both ways; identical decoding on packets",
-            "Fifteen theorems (Props/C09.v), C09_roundtrip being the document-level statement. partial: the two time parameter types are excluded from ptype_wf (their Encoding scale/offset form is tied by the correspondence only); XML text <-> tree is lxml's. That dumped definitions are in the writer normal form the theorem assumes is checked by the correspondence (model reader output = independent dump).",
-            "Trusted: Coq kernel+VM; str()/int()/float() attribute conversions (typed attributes); lxml serialisation/parsing. Genuine defects F12a, F12b found by this check and repaired by fix: commits.",
+            "Nineteen theorems (Props/C09.v), C09_roundtrip being the document-level statement. C09_wellformed_is_written: every well-formed document is written. Time parameter types are inside ptype_wf except a [scale; offset] polynomial in that term order (read back as [offset; scale]) and what the writer refuses (spline, non-numeric data encoding: modelled as time_writable). partial: XML text <-> tree is lxml's. That dumped definitions are in the writer normal form the theorem assumes is checked by the correspondence (model reader output = independent dump).",
+            "Trusted: Coq kernel+VM; str()/int()/float() attribute conversions (typed attributes); lxml serialisation/parsing. Genuine defects F12a, F12b, F18, F19 found by this check and repaired by fix: commits.",
             "DESIGN.md section 4 C09"),
     "C15": ("Coq proof (every element of the written tree is in the definition's namespace, by induction over all writers; writer is a function of definition and date; C15_stable: what is read back from a written tree is written to exactly that tree again, so every further cycle reproduces it) + implementation runs: W(D)=W(D) bytes, G2=G3 bytes, lxml re-parse, namespace of every element, definition dump unchanged",
-            "Four theorems (Props/C15.v). partial: byte-level serialisation is lxml's (tree equality is the theorem, byte equality G2 = G3 is observed on the implementation); time parameter types are outside doc_wf.",
+            "Four theorems (Props/C15.v). partial: byte-level serialisation is lxml's (tree equality is the theorem, byte equality G2 = G3 is observed on the implementation).",
             "Trusted: Coq kernel+VM; lxml serialisation.",
             "DESIGN.md section 4 C15"),
 }
